@@ -56,6 +56,13 @@ def view_corpus():
         dsec.append({'key': ('fs', 'Zz', a), 'val': 'as.bornmayer 2.0 0.5', 'sp': k}); dsec.append({'key': ('fs', a, 'Zz'), 'val': 'as.bornmayer 3.0 0.5', 'sp': 0})
         S = {'first': [a], 'extra': ['Zz'], 'all_but_extra': list(m['els'])}[pick]
         out.append({'model': m, 'views': [[mode, S]], 'ops': [['create', 0], ['read', 0]]})
+    # a species label with a hyphen in it ('Cu-b') in [EAM-Embed] / [EAM-Density]: one label, not two species
+    for k, (mode, S) in enumerate([('include', ['Cu-b']), ('exclude', ['Cu-b']), ('exclude', ['Cu']), ('include', ['Cu', 'b'])]):
+        m = sc.gen_model(random.Random(1360 + k), kind='eam')
+        for sec in ('EAM-Embed', 'EAM-Density'):
+            es = [es for s_, es in m['sections'] if s_[0] == sec][0]
+            es.append({'key': ('sp', 'Cu-b'), 'val': 'as.constant 1.5', 'sp': 0})
+        out.append({'model': m, 'views': [[mode, S]], 'ops': [['create', 0], ['read', 0]]})
     return out
 
 def which_prop(m):
